@@ -21,6 +21,7 @@ class Trace:
         self.read_fd = None
         self.write_fd = None
         self.closed = False
+        self.last_busy = time.monotonic()   # a freshly spawned daemon is busy initialising
 
     def add(self, kind, payload):
         with self.lock:
@@ -288,6 +289,18 @@ def daemon_blocked_reading(pid, read_fd_hint=None):
     return any_read, detail
 
 
+def daemon_busy(pid, ebp):
+    """True iff the daemon exists and is doing something other than sleeping in read() on an EMPTY command pipe
+    (running, stopped, waiting for a helper, reading elsewhere, or with unread input)."""
+    if proc_state(pid) in (None, "Z", "X"):
+        return False
+    blocked, _d = daemon_blocked_reading(pid)
+    if not blocked:
+        return True
+    diag = stall_diagnostics(pid, ebp)
+    return bool(diag["reads_elsewhere"] or not diag["reads_on_command_pipe"] or diag["command_pipe_unread"] != 0)
+
+
 def pipe_holders(target, exclude=()):
     """[(pid, fd, state, cmdline)] of every process that has the pipe `target` ('pipe:[ino]') open."""
     res = []
@@ -388,6 +401,14 @@ class StallMonitor(threading.Thread):
             return
         pid = ebp.pid
         since = tr.reading_since
+        if pid:
+            # activity history for consumers that must tell "daemon slower than a timeout" from "daemon never going
+            # to answer": the last moment the daemon was seen doing anything but waiting on an empty command pipe
+            try:
+                if daemon_busy(pid, ebp):
+                    tr.last_busy = time.monotonic()
+            except Exception:
+                pass
         if not pid or since is None or time.monotonic() - since < self.grace:
             self.state.pop(id(tr), None)
             return
